@@ -95,12 +95,18 @@ def start_bad(kind):
         spec = dict(banner=b'SSH-2.0-OpenSSH_8.0', kex=['diffie-hellman-group-exchange-sha256', 'curve25519-sha256'], key=['ssh-ed25519', 'ssh-rsa'], enc=['aes256-ctr'], mac=['hmac-sha2-256'],
                     hostkeys={b'ssh-ed25519': b'\xff' * 9, b'ssh-rsa': P.sstr(b'ssh-rsa') + P.sstr(b'')}, gex=lambda a, b, c: 'garbage')
         srv = P.new_ssh2_server(spec, stall_limit=3.0)
+    elif kind == 'probe-oversized-group':
+        # every group-exchange request is answered with a well-formed group whose modulus (65535 bits = exactly 8192 bytes on the wire) would keep one
+        # exponentiation busy for minutes - with the interpreter lock held, i.e. for every worker thread and for the collecting loop of main()
+        spec = dict(banner=b'SSH-2.0-OpenSSH_8.0', kex=['diffie-hellman-group-exchange-sha256', 'curve25519-sha256'], key=['ssh-ed25519'], enc=['aes256-ctr'], mac=['hmac-sha2-256'],
+                    hostkeys={b'ssh-ed25519': P.ed25519_blob()}, gex=lambda a, b, c: 'huge:65535')
+        srv = P.new_ssh2_server(spec, stall_limit=3.0)
     else:
         raise ValueError(kind)
     return '127.0.0.1:%d' % srv.port, srv
 
 
-BAD = ['unresolvable', 'refused', 'refused-port-65535', 'refused-port-1', 'silent', 'early-close', 'bad-blocksize', 'bad-crc', 'truncated-kexinit', 'zero-payload', 'garbage-banner', 'probe-garbage', 'ssh1-retry-badcrc', 'ssh1-retry-closed']
+BAD = ['unresolvable', 'refused', 'refused-port-65535', 'refused-port-1', 'silent', 'early-close', 'bad-blocksize', 'bad-crc', 'truncated-kexinit', 'zero-payload', 'garbage-banner', 'probe-garbage', 'probe-oversized-group', 'ssh1-retry-badcrc', 'ssh1-retry-closed']
 
 
 def run(ctx):
